@@ -13,7 +13,7 @@ from concurrent.futures import ThreadPoolExecutor
 from pathlib import Path
 
 from . import build_model as bm
-from . import cli, common, ninja_graph
+from . import cli, common, ninja_graph, parts_check
 from .common import MachineryError
 
 COLORS = ["#E53935", "#8E24AA", "#3949AB", "#039BE5", "#00897B", "#7CB342", "#FDD835", "#FB8C00", "#6D4C41", "#546E7A"]
@@ -140,7 +140,14 @@ def build_variant(work: Path, tag, files, fmt, variant, r):
         for f in sorted(sb.build.glob("*")):
             if f.suffix in (".toml", ".glyphmap", ".fea"):
                 side[f.name] = hashlib.sha256(f.read_bytes()).hexdigest()[:12]
-        return sb.sha(ext_font), {"rc": 0, "side": side}
+        info = {"rc": 0, "side": side}
+        pm = sb.build / "parts-merged.json"
+        if pm.exists():
+            try:
+                info["parts"] = parts_check.parts_meaning(pm)
+            except Exception as e:
+                info["parts"] = {"unreadable": str(e)[:100]}
+        return sb.sha(ext_font), info
     finally:
         shutil.rmtree(root, ignore_errors=True)
 
@@ -202,6 +209,7 @@ def run(chk):
         "of those dimensions; distinct by (format, variant)."
     )
     source_order(chk)
+    parts_check.run(chk)
     r = common.rng("c08")
     fmts = ["glyf_colr_1", "picosvg", "cbdt"] if quick else [
         "glyf_colr_1", "glyf_colr_0", "picosvg", "untouchedsvg", "cbdt", "sbix", "glyf", "cff_colr_1", "picosvgz"]
@@ -257,6 +265,16 @@ def run(chk):
                 diff = {k: (base[f][1]["side"].get(k), s) for k, s in info["side"].items() if base[f][1]["side"].get(k) != s}
                 chk.violation(f"{f}: font bytes differ under variant {v} (differing side files: {sorted(diff)})",
                               {"format": f, "variant": v, "files": files, "base_sha": base[f][0], "sha": sha})
+        # parts-merged.json lists shapes in hash order and is outside the property; its MEANING (Parts.tla: sets of shapes
+        # per normal form, donors) is still compared across the variants and reported as a note, never as a violation
+        pdiff = [f"{f} {v}" for f, v, (sha, info) in results
+                 if sha is not None and "parts" in info and "parts" in base[f][1] and info["parts"] != base[f][1]["parts"]]
+        chk.notes["parts_merged_meaning"] = {
+            "builds_compared": sum(1 for f, v, (sha, info) in results if sha is not None and "parts" in info),
+            "shape_sets_in_base": {f: len(b[1].get("parts", {}).get("sets", [])) for f, b in base.items()},
+            "differing": pdiff[:5]}
+        for d in pdiff[:5]:
+            print(f"SPEC-DRIFT module=Parts parts-merged.json means something else under {d[:200]}")
         chk.sample({"formats": fmts, "variants": variants, "sources": sorted(files)})
         chk.notes["base_sha"] = {f: s[0][:16] for f, s in base.items()}
     chk.assumptions += ["SOURCE_DATE_EPOCH fixed", "parts-merged.json is not compared (does not feed the font)"]
